@@ -58,4 +58,6 @@ var genericCmds = map[string]func(common.Args, *common.Out) error{
 	"maprange":   extract.MapRange,
 	"c10gated":   generic.C10Gated,
 	"progrun":    generic.ProgRun,
+	"satexport":  generic.SatExport,
+	"satenum":    generic.SatEnum,
 }
